@@ -92,7 +92,8 @@ def infer (req : Json) : Except String Json := do
     | "Scaler" => pure (inferScaler a b x)
     | "TreeEnsembleClassifier" => pure (inferTreeEnsembleClassifier a b c x)
     | "TreeEnsembleRegressor" => pure (inferTreeEnsembleRegressor a x)
-    | "Compress" => pure (inferCompress (optInt req "a") x y)
+    | "Compress" => pure (if (req.getObjValAs? Bool "vec").toOption.getD false
+        then inferCompressFixed (optInt req "a") x y else inferCompress (optInt req "a") x y)
     | o => throw s!"unknown op {o}"
   pure (resToJson r)
 
